@@ -765,6 +765,7 @@ func runServer(udp bool, peers, first []string) error {
 		go func(i int, kind string) {
 			defer wg.Done()
 			time.Sleep(time.Duration(i) * 7 * time.Millisecond)
+			beforeDial := time.Now()
 			p, err := sim.Dial(network, sim.Addr(port))
 			if err != nil {
 				results[i] = &res{kind: "BROKEN: " + err.Error()}
@@ -772,7 +773,9 @@ func runServer(udp bool, peers, first []string) error {
 			}
 			r := &res{label: p.LocalLabel(udp), kind: kind}
 			results[i] = r
-			r.silentAt = time.Now() // taken before the only datagram: the node cannot have read it earlier
+			// taken before the connection exists: a TCP channel's idle clock starts when it is accepted (not with
+			// the first byte), a UDP channel's with its first datagram; neither can be earlier than this
+			r.silentAt = beforeDial
 			hello := tagged(byte(i+1), 0, "debug", true, nil, 0).Bytes()
 			switch first[i] {
 			case "junk":
